@@ -26,8 +26,7 @@ private theorem vertex_table : ∀ c0 c1 c2 : Fin 3,
   decide
 
 /-- every vertex of the section is within `eps` of the plane -/
-def OnPlane {K : Type} [Num K] (n : V3 K) (bias eps : K) (V : Array (V3 K)) : Prop :=
-  ∀ p ∈ V.toList, -eps ≤ sdist n bias p ∧ sdist n bias p ≤ eps
+def AllP {K : Type} (P : V3 K → Prop) (V : Array (V3 K)) : Prop := ∀ p ∈ V.toList, P p
 
 private theorem colour0_near (n : V3 K) (bias eps : K) (p : V3 K)
     (h : letI := fieldNum K sq; vertexColour n bias eps p = 0) :
@@ -38,11 +37,11 @@ private theorem colour0_near (n : V3 K) (bias eps : K) (p : V3 K)
   split_ifs at h with h1 h2
   exact ⟨not_lt.mp h1, not_lt.mp h2⟩
 
-private theorem onplane_existing (n : V3 K) (bias eps : K) (V0 : Array (V3 K)) (st : Section.State K) (id : Nat)
-    (hI : letI := fieldNum K sq; OnPlane n bias eps st.verts)
-    (hc : letI := fieldNum K sq; vertexColour n bias eps (V0.getD id V3.zero) = 0) :
+private theorem onplane_existing (P : V3 K → Prop) (V0 : Array (V3 K)) (st : Section.State K) (id : Nat)
+    (hI : AllP P st.verts)
+    (hc : letI := fieldNum K sq; P (V0.getD id V3.zero)) :
     letI := fieldNum K sq
-    OnPlane n bias eps (Section.existingVertex V0 st id).1.verts := by
+    AllP P (Section.existingVertex V0 st id).1.verts := by
   letI : Num K := fieldNum K sq
   simp only [Section.existingVertex]
   cases st.existing.lookup id with
@@ -52,13 +51,13 @@ private theorem onplane_existing (n : V3 K) (bias eps : K) (V0 : Array (V3 K)) (
     simp only [Array.toList_push, List.mem_append, List.mem_singleton] at hp
     rcases hp with hp | rfl
     · exact hI p hp
-    · exact colour0_near sq n bias eps _ hc
+    · exact hc
 
-private theorem onplane_isect (n : V3 K) (bias eps : K) (he : 0 ≤ eps) (V0 : Array (V3 K)) (st : Section.State K) (a b : Nat)
-    (hI : letI := fieldNum K sq; OnPlane n bias eps st.verts)
-    (hab : letI := fieldNum K sq; OppCol (vertexColour n bias eps (V0.getD a V3.zero)) (vertexColour n bias eps (V0.getD b V3.zero))) :
+private theorem onplane_isect (P : V3 K → Prop) (n : V3 K) (bias : K) (V0 : Array (V3 K)) (st : Section.State K) (a b : Nat)
+    (hI : AllP P st.verts)
+    (hab : letI := fieldNum K sq; P (crossing n bias (V0.getD a V3.zero) (V0.getD b V3.zero))) :
     letI := fieldNum K sq
-    OnPlane n bias eps (Section.intersectEdge n bias V0 st a b).1.verts := by
+    AllP P (Section.intersectEdge n bias V0 st a b).1.verts := by
   letI : Num K := fieldNum K sq
   simp only [Section.intersectEdge]
   cases st.found.lookup (sortedPair a b) with
@@ -68,17 +67,19 @@ private theorem onplane_isect (n : V3 K) (bias eps : K) (he : 0 ≤ eps) (V0 : A
     simp only [Array.toList_push, List.mem_append, List.mem_singleton] at hp
     rcases hp with hp | rfl
     · exact hI p hp
-    · obtain ⟨t, _, _, _, hpl⟩ := crossing_on_plane_and_edge sq n bias eps (V0.getD a V3.zero) (V0.getD b V3.zero) he
-        (oppcol_sdist sq n bias eps he _ _ hab)
-      rw [hpl]; exact ⟨by linarith, he⟩
+    · exact hab
 
-private theorem stepTri_onplane (n : V3 K) (bias eps : K) (he : 0 ≤ eps) (V0 : Array (V3 K)) (colors : Array Nat)
+private theorem stepTri_onplane (P : V3 K → Prop) (n : V3 K) (bias eps : K) (V0 : Array (V3 K)) (colors : Array Nat)
     (st st' : Section.State K) (idx : Tri)
     (hc : letI := fieldNum K sq; ∀ k, colors.getD (idx.get k) 0 = vertexColour n bias eps (V0.getD (idx.get k) V3.zero))
-    (hI : letI := fieldNum K sq; OnPlane n bias eps st.verts)
+    (hPv : letI := fieldNum K sq; ∀ k, vertexColour n bias eps (V0.getD (idx.get k) V3.zero) = 0 → P (V0.getD (idx.get k) V3.zero))
+    (hPe : letI := fieldNum K sq; ∀ k, k < 3 →
+      OppCol (vertexColour n bias eps (V0.getD (idx.get k) V3.zero)) (vertexColour n bias eps (V0.getD (idx.get ((k + 1) % 3)) V3.zero)) →
+      P (crossing n bias (V0.getD (idx.get k) V3.zero) (V0.getD (idx.get ((k + 1) % 3)) V3.zero)))
+    (hI : AllP P st.verts)
     (h : letI := fieldNum K sq; Section.stepTri n bias V0 colors st idx = some st') :
     letI := fieldNum K sq
-    OnPlane n bias eps st'.verts := by
+    AllP P st'.verts := by
   letI : Num K := fieldNum K sq
   have hlt : ∀ k, colors.getD (idx.get k) 0 < 3 := fun k => by rw [hc]; exact vertexColour_lt sq _ _ _ _
   have h0 : colors.getD idx.1 0 < 3 := by simpa [Tri.get] using hlt 0
@@ -98,10 +99,10 @@ private theorem stepTri_onplane (n : V3 K) (bias eps : K) (he : 0 ≤ eps) (V0 :
       (Option.map (fun adj => ({ (Section.existingVertex V0 (Section.existingVertex V0 st (idx.get i)).1 (idx.get j)).1 with adj := adj } : Section.State K))
         (Section.addAdjSym (Section.existingVertex V0 (Section.existingVertex V0 st (idx.get i)).1 (idx.get j)).1.adj
           (Section.existingVertex V0 st (idx.get i)).2 (Section.existingVertex V0 (Section.existingVertex V0 st (idx.get i)).1 (idx.get j)).2)) = some st' →
-      OnPlane n bias eps st'.verts := by
+      AllP P st'.verts := by
     intro i j ci cj hm
-    have a1 := onplane_existing sq n bias eps V0 st (idx.get i) hI (by rw [← hc, ← hget]; exact ci)
-    have a2 := onplane_existing sq n bias eps V0 _ (idx.get j) a1 (by rw [← hc, ← hget]; exact cj)
+    have a1 := onplane_existing sq P V0 st (idx.get i) hI (hPv i (by rw [← hc, ← hget]; exact ci))
+    have a2 := onplane_existing sq P V0 _ (idx.get j) a1 (hPv j (by rw [← hc, ← hget]; exact cj))
     rw [Option.map_eq_some_iff] at hm
     obtain ⟨adj, _, rfl⟩ := hm
     exact a2
@@ -110,10 +111,11 @@ private theorem stepTri_onplane (n : V3 K) (bias eps : K) (he : 0 ≤ eps) (V0 :
         (Section.addAdjSym (Section.existingVertex V0 (Section.intersectEdge n bias V0 st (idx.get ie) (idx.get ((ie + 1) % 3))).1 (idx.get ((ie + 2) % 3))).1.adj
           (Section.existingVertex V0 (Section.intersectEdge n bias V0 st (idx.get ie) (idx.get ((ie + 1) % 3))).1 (idx.get ((ie + 2) % 3))).2
           (Section.intersectEdge n bias V0 st (idx.get ie) (idx.get ((ie + 1) % 3))).2)) = some st' →
-      OnPlane n bias eps st'.verts := by
-    intro ie _ cz hopp hm
-    have a1 := onplane_isect sq n bias eps he V0 st (idx.get ie) (idx.get ((ie + 1) % 3)) hI (by rw [← hc, ← hc, ← hget, ← hget]; exact hopp)
-    have a2 := onplane_existing sq n bias eps V0 _ (idx.get ((ie + 2) % 3)) a1 (by rw [← hc, ← hget]; exact cz)
+      AllP P st'.verts := by
+    intro ie hie3 cz hopp hm
+    have a1 := onplane_isect sq P n bias V0 st (idx.get ie) (idx.get ((ie + 1) % 3)) hI
+      (hPe ie (by assumption) (by rw [← hc, ← hc, ← hget, ← hget]; exact hopp))
+    have a2 := onplane_existing sq P V0 _ (idx.get ((ie + 2) % 3)) a1 (hPv _ (by rw [← hc, ← hget]; exact cz))
     rw [Option.map_eq_some_iff] at hm
     obtain ⟨adj, _, rfl⟩ := hm
     exact a2
@@ -136,18 +138,25 @@ private theorem stepTri_onplane (n : V3 K) (bias eps : K) (he : 0 ≤ eps) (V0 :
     dsimp only at h
     generalize (if e2 ≠ (e1 + 1) % 3 then e1 else e2) = e at hOK h
     obtain ⟨hie, hca, hab, _⟩ := hOK
-    have a1 := onplane_isect sq n bias eps he V0 st (idx.get ((e + 2) % 3)) (idx.get e) hI (by rw [← hc, ← hc, ← hget, ← hget]; exact hca)
-    have a2 := onplane_isect sq n bias eps he V0 _ (idx.get e) (idx.get ((e + 1) % 3)) a1 (by rw [← hc, ← hc, ← hget, ← hget]; exact hab)
+    have hmod : ((e + 2) % 3 + 1) % 3 = e := by omega
+    have hpe1 := hPe ((e + 2) % 3) (by omega)
+    rw [hmod] at hpe1
+    have a1 := onplane_isect sq P n bias V0 st (idx.get ((e + 2) % 3)) (idx.get e) hI (hpe1 (by rw [← hc, ← hc, ← hget, ← hget]; exact hca))
+    have a2 := onplane_isect sq P n bias V0 _ (idx.get e) (idx.get ((e + 1) % 3)) a1 (hPe e hie (by rw [← hc, ← hc, ← hget, ← hget]; exact hab))
     rw [Option.map_eq_some_iff] at h
     obtain ⟨adj, _, rfl⟩ := h
     exact a2
 
 
-private theorem stepLoop_onplane (n : V3 K) (bias eps : K) (he : 0 ≤ eps) (V0 : Array (V3 K)) (colors : Array Nat) (tris : List Tri)
-    (hc : letI := fieldNum K sq; ∀ t ∈ tris, ∀ k, colors.getD (t.get k) 0 = vertexColour n bias eps (V0.getD (t.get k) V3.zero)) :
+private theorem stepLoop_onplane (P : V3 K → Prop) (n : V3 K) (bias eps : K) (V0 : Array (V3 K)) (colors : Array Nat) (tris : List Tri)
+    (hc : letI := fieldNum K sq; ∀ t ∈ tris, ∀ k, colors.getD (t.get k) 0 = vertexColour n bias eps (V0.getD (t.get k) V3.zero))
+    (hPv : letI := fieldNum K sq; ∀ t ∈ tris, ∀ k, vertexColour n bias eps (V0.getD (t.get k) V3.zero) = 0 → P (V0.getD (t.get k) V3.zero))
+    (hPe : letI := fieldNum K sq; ∀ t ∈ tris, ∀ k, k < 3 →
+      OppCol (vertexColour n bias eps (V0.getD (t.get k) V3.zero)) (vertexColour n bias eps (V0.getD (t.get ((k + 1) % 3)) V3.zero)) →
+      P (crossing n bias (V0.getD (t.get k) V3.zero) (V0.getD (t.get ((k + 1) % 3)) V3.zero))) :
     letI := fieldNum K sq
-    ∀ (st st' : Section.State K), OnPlane n bias eps st.verts → Section.stepLoop n bias V0 colors st tris = some st' →
-      OnPlane n bias eps st'.verts := by
+    ∀ (st st' : Section.State K), AllP P st.verts → Section.stepLoop n bias V0 colors st tris = some st' →
+      AllP P st'.verts := by
   letI : Num K := fieldNum K sq
   induction tris with
   | nil => intro st st' hI h; simp only [Section.stepLoop, Option.some.injEq] at h; subst h; exact hI
@@ -158,18 +167,25 @@ private theorem stepLoop_onplane (n : V3 K) (bias eps : K) (he : 0 ≤ eps) (V0 
     | none => rw [h1] at h; simp at h
     | some st1 =>
       rw [h1] at h
-      exact ih (fun x hx => hc x (by simp [hx])) st1 st'
-        (stepTri_onplane sq n bias eps he V0 colors st st1 t (hc t (by simp)) hI h1) h
+      exact ih (fun x hx => hc x (by simp [hx])) (fun x hx => hPv x (by simp [hx])) (fun x hx => hPe x (by simp [hx])) st1 st'
+        (stepTri_onplane sq P n bias eps V0 colors st st1 t (hc t (by simp)) (hPv t (by simp)) (hPe t (by simp)) hI h1) h
 
-/-- **C17 (plane section, vertices in the plane)**: when `intersection_with_local_plane` returns `Intersect(polyline)`, every
-vertex of the polyline is within `eps` of the cutting plane: it is a mesh vertex of colour 0 (`|n·v - bias| ≤ eps`) or the crossing
-point of an edge whose end points are beyond `eps` on opposite sides, which lies *exactly* on the plane
-(`crossing_on_plane_and_edge`: and strictly inside that edge). Any mesh with valid indices, any plane, `eps ≥ 0`. -/
+/-- a point of the mesh skeleton: a vertex of a triangle, or a point strictly inside an edge of a triangle -/
+def OnMeshEdge {K : Type} [Num K] (V0 : Array (V3 K)) (tris : List Tri) (p : V3 K) : Prop :=
+  (∃ t ∈ tris, ∃ k, p = V0.getD (t.get k) V3.zero) ∨
+  (∃ t ∈ tris, ∃ k, k < 3 ∧ ∃ s : K, 0 < s ∧ s < 1 ∧
+    p = (V0.getD (t.get k) V3.zero).add (((V0.getD (t.get ((k + 1) % 3)) V3.zero).sub (V0.getD (t.get k) V3.zero)).smul s))
+
+/-- **C17 (plane section, vertices in the plane and on the mesh)**: when `intersection_with_local_plane` returns
+`Intersect(polyline)`, every vertex of the polyline (1) is within `eps` of the cutting plane and (2) lies on the mesh: it is a
+mesh vertex of colour 0 (`|n·v - bias| ≤ eps`) of some triangle, or the crossing point of an edge of some triangle whose end points
+are beyond `eps` on opposite sides — that point lies *exactly* on the plane and strictly inside the edge.
+Any mesh with valid indices, any plane, `eps ≥ 0`. -/
 theorem section_vertices_in_plane (verts : List (V3 K)) (tris : List Tri) (n : V3 K) (bias eps : K) (he : 0 ≤ eps)
     (vs : List (V3 K)) (segs : List (Nat × Nat))
     (h : letI := fieldNum K sq; Section.localSection verts tris n bias eps = some (.intersect vs segs)) :
     letI := fieldNum K sq
-    ∀ p ∈ vs, -eps ≤ sdist n bias p ∧ sdist n bias p ≤ eps := by
+    ∀ p ∈ vs, (-eps ≤ sdist n bias p ∧ sdist n bias p ≤ eps) ∧ OnMeshEdge verts.toArray tris p := by
   letI : Num K := fieldNum K sq
   simp only [Section.localSection] at h
   by_cases hv : validMesh verts.length tris = true
@@ -196,7 +212,13 @@ theorem section_vertices_in_plane (verts : List (V3 K)) (tris : List Tri) (n : V
         rw [hs] at h
         simp only [Option.some.injEq, Section.Result.intersect.injEq] at h
         obtain ⟨rfl, _⟩ := h
-        exact stepLoop_onplane sq n bias eps he _ _ tris hc _ st (by intro p hp; simp at hp) hs
+        refine stepLoop_onplane sq (fun p => (-eps ≤ sdist n bias p ∧ sdist n bias p ≤ eps) ∧ OnMeshEdge verts.toArray tris p)
+          n bias eps _ _ tris hc ?_ ?_ _ st (by intro p hp; simp at hp) hs
+        · intro t ht k hk0
+          exact ⟨colour0_near sq n bias eps _ hk0, Or.inl ⟨t, ht, k, rfl⟩⟩
+        · intro t ht k hk hopp
+          obtain ⟨s, s0, s1, hcr, hpl⟩ := crossing_on_plane_and_edge sq n bias eps _ _ he (oppcol_sdist sq n bias eps he _ _ hopp)
+          exact ⟨by rw [hpl]; exact ⟨by linarith, he⟩, Or.inr ⟨t, ht, k, hk, s, s0, s1, hcr⟩⟩
   · simp [hv] at h
 
 end C17
